@@ -16,7 +16,10 @@ c14_failing_clients: clients whose connection FAILS before a request exists (eig
             deterministic: the failing client's worker is stopped at every event of its error path
             (trace hook in the launcher script, mode "errpath") while a good client is accepted and
             gets the lowest free descriptor number; then rounds of a few failing + a few good clients
-            on the threading (switch interval 10 us) and forking server."""
+            on the threading (switch interval 10 us) and forking server.
+c14_codeload: .pyg modules / TAL templates / scripts (full-featured handler list), in-process: request A is
+            stopped at sampled line events of the loading handlers, the loaded module and the template library
+            while request B for a different object runs to completion."""
 import hashlib
 import json
 import os
@@ -1029,6 +1032,142 @@ def c14_lazy(job, drv):
 
 
 # ----------------------------------------------------------------------------
+# deterministic: objects whose answer is produced by code / templates / scripts loaded per request
+# ----------------------------------------------------------------------------
+def c14_codeload(job, drv):
+    """Request A is stopped before a line of (a) the handler modules that load per-request code (job["trace_files"]),
+    (b) any file below the served root (the body and the methods of a .pyg module), (c) the template library
+    (job["trace_dirs"]); request B -- for a DIFFERENT object -- then runs to completion; A is released.  The stopping
+    points are found by a counting run of A alone and sampled evenly (job["points_per_pair"]).  Both answers are
+    compared with the answers the requests get alone."""
+    import implops_c10 as h
+    w = drv.World({"tree": job["tree"]})
+    alarm_was, drv._alarm_ok = drv._alarm_ok, False          # requests run in worker threads here
+    nc = h.nocache()
+    nc.__enter__()
+    try:
+        cfg = h.cacheless_config(drv, w.root, job.get("config") or {})
+        reqs = job["requests"]
+        files = tuple(job["trace_files"])
+        dirs = tuple(job.get("trace_dirs", ()))
+        rootp = w.root + os.sep
+        pid = os.getpid()
+        wanted = {}
+
+        def want(code):
+            r = wanted.get(code)
+            if r is None:
+                fn = code.co_filename
+                r = wanted[code] = (fn.startswith(rootp) or fn.endswith(files) or any(d in fn for d in dirs))
+            return r
+
+        def ask(nm):
+            rq = reqs[nm]
+            r = drv.serve_once(cfg, drv.s2b(rq["data"]), tls=rq["tls"])
+            return h.mask(drv.s2b(r["out"])), r
+
+        drv.reset_lazies()
+        refs = {}
+        for nm in sorted({x for p in job["pairs"] for x in p}):
+            refs[nm], r1 = ask(nm)
+            again, _ = ask(nm)
+            if again != refs[nm] or not refs[nm]:
+                return {"trials": 0, "bad": [{"sequential_unstable": nm, "first": drv.b2s(refs[nm][:300]),
+                                              "second": drv.b2s(again[:300]), "exception": r1["exc"]}], "nbad": 1, "points": {}}
+
+        def run_pair(a_name, b_name, k):
+            """k = None: count A's points; else stop A before its k-th point while B runs"""
+            cv = threading.Condition()
+            st = {"paused": False, "go": False, "done": False, "where": None, "count": 0}
+            res = {}
+
+            def local(frame, event, arg):
+                if event == "line" and os.getpid() == pid:
+                    st["count"] += 1
+                    if st["count"] == k:
+                        st["where"] = (os.path.basename(frame.f_code.co_filename), frame.f_code.co_name, frame.f_lineno)
+                        with cv:
+                            st["paused"] = True
+                            cv.notify_all()
+                            t0 = time.time()
+                            while not st["go"] and time.time() - t0 < 20:
+                                cv.wait(1)
+                return local
+
+            def tracer(frame, event, arg):
+                return local if event == "call" and want(frame.f_code) else None
+
+            def a_body():
+                sys.settrace(tracer)
+                try:
+                    res["a"] = ask(a_name)
+                finally:
+                    sys.settrace(None)
+                    with cv:
+                        st["done"] = True
+                        cv.notify_all()
+
+            ta = threading.Thread(target=a_body, daemon=True)
+            ta.start()
+            with cv:
+                while not st["paused"] and not st["done"]:
+                    cv.wait(10)
+            tb = None
+            waited = False
+            if st["paused"]:
+                tb = threading.Thread(target=lambda: res.__setitem__("b", ask(b_name)), daemon=True)
+                tb.start()
+                tb.join(3)
+                waited = tb.is_alive()       # B waits for the stopped A (some lock)
+            with cv:
+                st["go"] = True
+                cv.notify_all()
+            ta.join(8)
+            if tb is not None:
+                tb.join(8)
+            for who, th_ in (("a", ta), ("b", tb)):
+                if th_ is not None and (th_.is_alive() or who not in res):
+                    res[who] = (b"", {"exc": "request still running 8 s after every request was released", "out": ""})
+            return st, res, waited
+
+        trials = 0
+        bad = []
+        points = {}
+        where = {}
+        for a_name, b_name in job["pairs"]:
+            st, res, _ = run_pair(a_name, b_name, None)
+            n = st["count"]
+            points["%s | %s" % (a_name, b_name)] = n
+            m = int(job.get("points_per_pair", 30))
+            ks = list(range(1, n + 1)) if n <= m else sorted({1 + (i * (n - 1)) // (m - 1) for i in range(m)})
+            nbad_pair = 0
+            for k in ks:
+                if nbad_pair >= 2 or len(bad) >= 12:
+                    break
+                st, res, waited = run_pair(a_name, b_name, k)
+                if not st["paused"]:
+                    continue
+                trials += 1
+                wk = "%s:%s" % (st["where"][0], st["where"][1])
+                where[wk] = where.get(wk, 0) + 1
+                for who, nm in (("a", a_name), ("b", b_name)):
+                    out, r = res[who]
+                    if out != refs[nm] or r["exc"]:
+                        nbad_pair += 1
+                        bad.append({"stopped_request": a_name, "other_request": b_name, "point": k, "of_points": n,
+                                    "stopped_in_file": st["where"][0], "function": st["where"][1], "before_line": st["where"][2],
+                                    "wrong_answer_of": nm, "other_request_waited_for_the_stopped_one": waited,
+                                    "which": "the stopped request" if who == "a" else "the request that ran in between",
+                                    "got": drv.b2s(out[:400]), "expected": drv.b2s(refs[nm][:400]), "exception": r["exc"]})
+        return {"trials": trials, "bad": bad[:12], "nbad": len(bad), "points": points, "stopped_in": where}
+    finally:
+        sys.settrace(None)
+        nc.__exit__()
+        drv._alarm_ok = alarm_was
+        w.close()
+
+
+# ----------------------------------------------------------------------------
 # deterministic: a request that never reaches getdirlist(), then a listing of the same directory
 # ----------------------------------------------------------------------------
 def c14_probe_list(job, drv):
@@ -1457,6 +1596,7 @@ def c14_failing_clients(job, drv):
 
 
 def register(OPS, drv):
+    OPS["c14_codeload"] = lambda job: c14_codeload(job, drv)
     OPS["c14_failing_clients"] = lambda job: c14_failing_clients(job, drv)
     OPS["c14_probe_list"] = lambda job: c14_probe_list(job, drv)
     OPS["c14_lazy"] = lambda job: c14_lazy(job, drv)
